@@ -131,6 +131,7 @@ func (server *httpServer) handleHttpRequest(conn net.Conn) string {
 	contentLength := 0
 	apiKey := ""
 	body := ""
+	var getMatch []string
 	answer := func(code string, message string) string {
 		message += "\n"
 		return code + fmt.Sprintf("Content-Length: %d%s", len(message), crlf+crlf+message)
@@ -161,23 +162,22 @@ func (server *httpServer) handleHttpRequest(conn net.Conn) string {
 		return 0, nil, nil
 	})
 
+Loop:
 	for scanner.Scan() {
 		text := scanner.Text()
 		switch section {
 		case 0:
-			getMatch := getRegex.FindStringSubmatch(text)
-			if len(getMatch) > 0 {
-				response := server.getHandler(parseGetParams(getMatch[1]))
-				if len(response) > 0 {
-					return good(response)
-				}
-				return answer(httpUnavailable+jsonContentType, `{"error":"timeout"}`)
-			} else if !strings.HasPrefix(text, "POST / HTTP") {
+			getMatch = getRegex.FindStringSubmatch(text)
+			if len(getMatch) == 0 && !strings.HasPrefix(text, "POST / HTTP") {
 				return bad("invalid request method")
 			}
 			section++
 		case 1:
 			if text == crlf {
+				if len(getMatch) > 0 {
+					// End of the headers of a GET request
+					break Loop
+				}
 				if contentLength == 0 {
 					return bad("content-length header missing")
 				}
@@ -188,6 +188,10 @@ func (server *httpServer) handleHttpRequest(conn net.Conn) string {
 			if len(pair) == 2 {
 				switch strings.ToLower(pair[0]) {
 				case "content-length":
+					if len(getMatch) > 0 {
+						// GET requests are answered without looking at the body
+						continue
+					}
 					length, err := strconv.Atoi(strings.TrimSpace(pair[1]))
 					if err != nil || length <= 0 || length > maxContentLength {
 						return bad("invalid content length")
@@ -204,6 +208,14 @@ func (server *httpServer) handleHttpRequest(conn net.Conn) string {
 
 	if len(server.apiKey) != 0 && subtle.ConstantTimeCompare([]byte(apiKey), server.apiKey) != 1 {
 		return unauthorized("invalid api key")
+	}
+
+	if len(getMatch) > 0 {
+		response := server.getHandler(parseGetParams(getMatch[1]))
+		if len(response) > 0 {
+			return good(response)
+		}
+		return answer(httpUnavailable+jsonContentType, `{"error":"timeout"}`)
 	}
 
 	if len(body) < contentLength {
